@@ -7,8 +7,11 @@
    Systemd.v  : independent reading of systemd 252's rules for an ExecStart=
                 value, on bytes: UTF-8 cleanliness, word splitting, quote
                 removal, C-style unescaping, the lone-semicolon rule, %
-                specifiers, $ variables (decode); unit_exec_start finds the
-                ExecStart= line of a unit file.
+                specifiers, $ variables (decode); service_exec_starts reads a
+                unit FILE as systemd does (lines, continuation, comments,
+                sections) up to the ExecStart= values of [Service].
+   EscapeSpec.v : the checker c17_check (extracted, applied to the real text)
+                and the proposition it decides.
    utf8       : String::as_bytes. *)
 From Coq Require Import List NArith Bool String.
 From TM Require Import Escape Systemd EscapeSpec EscapeLemmas.
@@ -37,30 +40,33 @@ Theorem C17_exec_roundtrip :
 Proof. exact exec_roundtrip. Qed.
 Print Assumptions C17_exec_roundtrip.
 
-(* The written unit file consists of the six fixed header lines and exactly one
-   more line, "ExecStart=" followed by exec_line: no pattern can break the line
-   or add another assignment. *)
+(* How systemd reads the written unit FILE (Systemd.service_exec_starts: lines,
+   line continuation, comments, sections, key=value, "ExecStart=" in [Service]
+   only): it finds exactly one ExecStart= assignment, and its value is
+   exec_line — no pattern can break the line, start a comment or a continued
+   line, or add another assignment. *)
 Theorem C17_unit_file_shape :
   forall (pats : list (list N)),
     (forall p, In p pats -> p <> [] /\ Forall scalar_ok p) ->
-    unit_exec_start [str "[Unit]"; str "Description=Totalmapper"; str "[Service]"; str "Type=simple";
-                     str "User=totalmapper"; str "Group=input"]
-                    (utf8 (build_service_text pats))
-    = Some (utf8 (exec_line pats)).
-Proof. exact unit_text_exec_start. Qed.
+    service_exec_starts (utf8 (build_service_text pats)) = Some [utf8 (exec_line pats)].
+Proof. exact unit_text_exec_starts. Qed.
 Print Assumptions C17_unit_file_shape.
 
-(* Both together, from the bytes of the unit file to the argument vector; and
-   the extracted checker c17_check (the one ocaml/escape_check.ml applies to the
-   REAL unit text) never fires on the model. *)
+(* Both together, from the bytes of the unit file to the argument vector. *)
 Theorem C17_unit_roundtrip :
   forall (inst : list N) (env : list N -> option (list N)) (pats : list (list N)),
     Forall (fun b => b <> 36) inst ->
     (forall p, In p pats -> p <> [] /\ Forall scalar_ok p) ->
-    read_back inst env (utf8 (build_service_text pats)) = Some (expected_argv inst pats).
+    read_unit inst env (utf8 (build_service_text pats))
+    = Some ([str "/usr/bin/totalmapper"; str "remap"; str "--verbose"; str "--layout-file";
+             str "/etc/totalmapper.json"; str "--only-if-keyboard"]
+            ++ flat_map (fun p => [str "--exclude"; utf8 p]) pats
+            ++ [str "--dev-file"; 47 :: inst]).
 Proof. exact unit_roundtrip. Qed.
 Print Assumptions C17_unit_roundtrip.
 
+(* The extracted checker c17_check (the one ocaml/escape_check.ml applies to the
+   REAL unit text) never fires on the model. *)
 Theorem C17_check_on_model :
   forall (inst : list N) (env : list N -> option (list N)) (pats : list (list N)),
     Forall (fun b => b <> 36) inst ->
@@ -68,6 +74,87 @@ Theorem C17_check_on_model :
     c17_check inst env pats (utf8 (build_service_text pats)) = true.
 Proof. exact check_on_model. Qed.
 Print Assumptions C17_check_on_model.
+
+(* What a `true` answer of the checker MEANS, on an arbitrary unit file text
+   (nothing is assumed about the text, the patterns, the instance or the
+   environment): systemd finds exactly one ExecStart= assignment in [Service];
+   its reading of that line is an argument vector  pre ++ excl ++ tail  where
+   excl is exactly "--exclude" <UTF-8 bytes of the pattern> for each of the
+   user's patterns, in order, tail is "--dev-file" "/<instance>", and pre — the
+   surrounding arguments — is not empty (the program), contains no word
+   "--exclude", contains "--layout-file" followed by a word, and contains
+   "--only-if-keyboard" somewhere other than in the place of that word.
+   Nothing else is demanded: not the other lines of the unit, not the program
+   path, not --verbose, not the layout path. *)
+Theorem C17_check_sound :
+  forall (inst : list N) (env : list N -> option (list N)) (pats : list (list N)) (text : list N),
+    c17_check inst env pats text = true ->
+    exists (line : list N) (argv pre : list (list N)),
+      service_exec_starts text = Some [line]
+      /\ decode inst env line = Some argv
+      /\ argv = pre ++ flat_map (fun p => [str "--exclude"; utf8 p]) pats ++ [str "--dev-file"; 47 :: inst]
+      /\ pre <> []
+      /\ ~ In (str "--exclude") pre
+      /\ exists a v b, pre = a ++ [str "--layout-file"; v] ++ b /\ In (str "--only-if-keyboard") (a ++ b).
+Proof. exact check_sound. Qed.
+Print Assumptions C17_check_sound.
+
+(* ... and a `false` answer means the text does not have that property: the
+   checker decides it. *)
+Theorem C17_check_complete :
+  forall (inst : list N) (env : list N -> option (list N)) (pats : list (list N)) (text : list N),
+    (exists (line : list N) (argv pre : list (list N)),
+      service_exec_starts text = Some [line]
+      /\ decode inst env line = Some argv
+      /\ argv = pre ++ flat_map (fun p => [str "--exclude"; utf8 p]) pats ++ [str "--dev-file"; 47 :: inst]
+      /\ pre <> []
+      /\ ~ In (str "--exclude") pre
+      /\ exists a v b, pre = a ++ [str "--layout-file"; v] ++ b /\ In (str "--only-if-keyboard") (a ++ b)) ->
+    c17_check inst env pats text = true.
+Proof. exact check_complete. Qed.
+Print Assumptions C17_check_complete.
+
+(* The same for ANY front part of the line instead of the model's
+   "/usr/bin/totalmapper remap --verbose --layout-file /etc/totalmapper.json
+   --only-if-keyboard ": if systemd, reading the front part P alone, takes it as
+   the complete words pre (UTF-8 clean, ends between two words, specifiers and
+   variables expanded, an absolute program path), then P followed by what the
+   escaper writes from the exclude region on is read as pre, the exclude
+   arguments byte for byte, "--dev-file" "/<instance>".  The round trip of the
+   patterns does not depend on the program path, --verbose or the layout path. *)
+Theorem C17_any_prefix :
+  forall (inst : list N) (env : list N -> option (list N)) (P : list N) (pre : list (list N))
+         (pats : list (list N)),
+    Forall (fun b => b <> 36) inst ->
+    (forall p, In p pats -> p <> [] /\ Forall scalar_ok p) ->
+    read_prefix inst env P = Some pre ->
+    decode inst env (P ++ (utf8 (build_exclude_text pats) ++ [32]) ++ utf8 (str "--dev-file /%I"))
+    = Some (pre ++ flat_map (fun p => [str "--exclude"; utf8 p]) pats ++ [str "--dev-file"; 47 :: inst]).
+Proof. exact decode_any_prefix. Qed.
+Print Assumptions C17_any_prefix.
+
+(* What correspondence class TEXT compares between the real unit text and the
+   model (text_class_ok, extracted): systemd finds one ExecStart= assignment in
+   [Service]; its value ends with the model's text from the exclude region on,
+   byte for byte; the part in front of that, read alone, is an intact prefix.
+   The model's text passes, and ANY text that passes has the property — so the
+   theorems above speak about every real text the comparison accepts, whatever
+   its other lines and its front part are. *)
+Theorem C17_text_class_on_model :
+  forall (inst : list N) (env : list N -> option (list N)) (pats : list (list N)),
+    (forall p, In p pats -> p <> [] /\ Forall scalar_ok p) ->
+    text_class_ok inst env pats (utf8 (build_service_text pats)) = true.
+Proof. exact text_class_ok_model. Qed.
+Print Assumptions C17_text_class_on_model.
+
+Theorem C17_text_class_implies_check :
+  forall (inst : list N) (env : list N -> option (list N)) (pats : list (list N)) (text : list N),
+    Forall (fun b => b <> 36) inst ->
+    (forall p, In p pats -> p <> [] /\ Forall scalar_ok p) ->
+    text_class_ok inst env pats text = true ->
+    c17_check inst env pats text = true.
+Proof. exact text_class_ok_check. Qed.
+Print Assumptions C17_text_class_implies_check.
 
 (* The per-character core: inside an unquoted word, whatever state the word is
    in, the text written for one scalar is read back by the word splitter as the
@@ -94,7 +181,7 @@ Example C17_example_hypotheses :
 Proof. vm_compute. reflexivity. Qed.
 
 Example C17_example_roundtrip :
-  read_back (str "dev/input/event3") (fun _ => Some (str "X Y")) (utf8 (build_service_text example_pats))
+  read_unit (str "dev/input/event3") (fun _ => Some (str "X Y")) (utf8 (build_service_text example_pats))
   = Some (expected_argv (str "dev/input/event3") example_pats).
 Proof. vm_compute. reflexivity. Qed.
 
@@ -110,3 +197,141 @@ Example C17_oracle_discriminates_apostrophe :
   decode (str "dev/input/event3") (fun _ => None) (utf8 (str "/usr/bin/totalmapper --exclude ' --dev-file /%I"))
   = None.
 Proof. vm_compute. reflexivity. Qed.
+
+(* ---------------------------------------------------------------- the checker, on examples *)
+
+Definition inst3 : list N := str "dev/input/event3".
+Definition env_none : list N -> option (list N) := fun _ => None.
+Definition env_all_set : list N -> option (list N) := fun _ => Some (str "X Y").
+
+(* a unit file from its lines *)
+Definition unit_of_lines (ls : list (list N)) : list N := flat_map (fun l => l ++ [10]) ls.
+
+(* (a) the patterns  a b  '  %i  $X  é : what the model writes for them, and
+   the checker's answer on it under both environments *)
+Definition pats_a : list (list N) := [str "a b"; str "'"; str "%i"; str "$X"; [233]].
+
+Example C17_example_a_line :
+  exec_line pats_a
+  = str "/usr/bin/totalmapper remap --verbose --layout-file /etc/totalmapper.json --only-if-keyboard --exclude a\sb --exclude \' --exclude %%i --exclude $$X --exclude "
+    ++ [233] ++ str " --dev-file /%I".
+Proof. vm_compute. reflexivity. Qed.
+
+Example C17_example_a_check :
+  c17_check inst3 env_none pats_a (utf8 (build_service_text pats_a)) = true
+  /\ c17_check inst3 env_all_set pats_a (utf8 (build_service_text pats_a)) = true.
+Proof. vm_compute. split; reflexivity. Qed.
+
+(* (b) a unit that differs from the model's in everything the property does not
+   speak about — another Description, a blank line less, Restart=on-failure,
+   another program path, no --verbose, an [Install] section, a comment — and
+   has the same exclude arguments: the checker accepts it *)
+Definition unit_b : list N :=
+  unit_of_lines
+    [str "# installed by totalmapper"; str "[Unit]"; str "Description=Totalmapper keyboard remapper"; str "[Service]";
+     str "Type=simple"; str "Restart=on-failure"; str "User=totalmapper"; str "Group=input";
+     str "ExecStart=/usr/local/bin/totalmapper remap --layout-file /etc/totalmapper.json --only-if-keyboard --exclude a\sb --exclude \' --exclude %%i --exclude $$X --exclude "
+       ++ [195; 169] ++ str " --dev-file /%I";
+     []; str "[Install]"; str "WantedBy=multi-user.target"].
+
+Example C17_example_b_other_lines_do_not_matter :
+  c17_check inst3 env_none pats_a unit_b = true /\ c17_check inst3 env_all_set pats_a unit_b = true.
+Proof. vm_compute. split; reflexivity. Qed.
+
+(* a long ExecStart= folded with backslash-newline between words is read as one
+   line (the backslash becomes a space) *)
+Definition unit_head : list (list N) :=
+  [str "[Unit]"; str "Description=Totalmapper"; []; str "[Service]"; str "Type=simple"; str "User=totalmapper"; str "Group=input"].
+
+Definition pats_hash : list (list N) := [str "x"; str "#y"].
+
+Example C17_example_folded_line_ok :
+  c17_check inst3 env_none pats_hash
+    (unit_of_lines (unit_head ++
+       [str "ExecStart=/usr/bin/totalmapper remap --verbose --layout-file /etc/totalmapper.json --only-if-keyboard --exclude x \";
+        str "    --exclude #y --dev-file /%I"]))
+  = true.
+Proof. vm_compute. reflexivity. Qed.
+
+(* (c) units that do NOT have the property: the checker answers false *)
+
+(* the same fold one word later: the line that begins with "#y" is a comment
+   for systemd, also inside a continued line, and is dropped; what is left is
+   "... --exclude x --exclude" (regression seeded/C17-r5m1) *)
+Example C17_example_hash_pattern_swallowed :
+  let text := unit_of_lines (unit_head ++
+       [str "ExecStart=/usr/bin/totalmapper remap --verbose --layout-file /etc/totalmapper.json --only-if-keyboard --exclude x --exclude \";
+        str "    #y --dev-file /%I"]) in
+  c17_check inst3 env_none pats_hash text = false
+  /\ read_unit inst3 env_none text
+     = Some [str "/usr/bin/totalmapper"; str "remap"; str "--verbose"; str "--layout-file"; str "/etc/totalmapper.json";
+             str "--only-if-keyboard"; str "--exclude"; str "x"; str "--exclude"].
+Proof. vm_compute. split; reflexivity. Qed.
+
+Definition unit_with_exec (l : list N) : list N := unit_of_lines (unit_head ++ [str "ExecStart=" ++ l]).
+
+(* a pattern with a space written without escape arrives as two arguments *)
+Example C17_example_pattern_split_in_two :
+  c17_check inst3 env_none [str "a b"]
+    (unit_with_exec (str "/usr/bin/totalmapper remap --verbose --layout-file /etc/totalmapper.json --only-if-keyboard --exclude a b --dev-file /%I"))
+  = false.
+Proof. vm_compute. reflexivity. Qed.
+
+(* a second ExecStart= line (a pattern that smuggled a line break in, say) *)
+Example C17_example_second_exec_start :
+  c17_check inst3 env_none [str "x"]
+    (unit_of_lines (unit_head ++
+       [str "ExecStart=/usr/bin/totalmapper remap --verbose --layout-file /etc/totalmapper.json --only-if-keyboard --exclude x --dev-file /%I";
+        str "ExecStart=/bin/evil"]))
+  = false.
+Proof. vm_compute. reflexivity. Qed.
+
+(* the right line in the wrong place: in [Unit] it is not the service's command *)
+Example C17_example_exec_start_before_service :
+  c17_check inst3 env_none [str "x"]
+    (unit_of_lines
+       [str "[Unit]"; str "Description=Totalmapper";
+        str "ExecStart=/usr/bin/totalmapper remap --verbose --layout-file /etc/totalmapper.json --only-if-keyboard --exclude x --dev-file /%I";
+        str "[Service]"; str "Type=simple"; str "User=totalmapper"; str "Group=input"])
+  = false.
+Proof. vm_compute. reflexivity. Qed.
+
+(* a surrounding argument lost *)
+Example C17_example_only_if_keyboard_missing :
+  c17_check inst3 env_none [str "x"]
+    (unit_with_exec (str "/usr/bin/totalmapper remap --verbose --layout-file /etc/totalmapper.json --exclude x --dev-file /%I"))
+  = false.
+Proof. vm_compute. reflexivity. Qed.
+
+Example C17_example_layout_file_value_missing :
+  c17_check inst3 env_none [str "x"]
+    (unit_with_exec (str "/usr/bin/totalmapper remap --verbose --layout-file --only-if-keyboard --exclude x --dev-file /%I"))
+  = false.
+Proof. vm_compute. reflexivity. Qed.
+
+(* a bare apostrophe opens a quote that swallows "--dev-file /%I": systemd
+   refuses the line *)
+Example C17_example_dev_file_swallowed_by_quote :
+  c17_check inst3 env_none [str "'"]
+    (unit_with_exec (str "/usr/bin/totalmapper remap --verbose --layout-file /etc/totalmapper.json --only-if-keyboard --exclude ' --dev-file /%I"))
+  = false.
+Proof. vm_compute. reflexivity. Qed.
+
+(* the wrong pattern, or the patterns in the wrong order *)
+Example C17_example_wrong_order :
+  c17_check inst3 env_none [str "x"; str "y"]
+    (unit_with_exec (str "/usr/bin/totalmapper remap --verbose --layout-file /etc/totalmapper.json --only-if-keyboard --exclude y --exclude x --dev-file /%I"))
+  = false.
+Proof. vm_compute. reflexivity. Qed.
+
+(* correspondence class TEXT on the examples: unit_b (other lines, another
+   program path, no --verbose) passes; a unit whose exclude region is written
+   differently from the model (quotes instead of backslash escapes) has the
+   property and is accepted by the checker, but is a TEXT difference *)
+Example C17_example_text_class_b : text_class_ok inst3 env_none pats_a unit_b = true.
+Proof. vm_compute. reflexivity. Qed.
+
+Example C17_example_text_class_other_escaping :
+  let text := unit_with_exec (str "/usr/bin/totalmapper remap --verbose --layout-file /etc/totalmapper.json --only-if-keyboard --exclude 'a b' --dev-file /%I") in
+  c17_check inst3 env_none [str "a b"] text = true /\ text_class_ok inst3 env_none [str "a b"] text = false.
+Proof. vm_compute. split; reflexivity. Qed.
